@@ -43,7 +43,7 @@ ZERO_DEFS = {"def:0", "def:false", 'def:""', "def:nil", "def:0.0"}
 def norm_leaf(item, types):
     """what reflection cannot tell apart: a default that IS the zero value; which bool sentinel a true came from"""
     path, _, val = item.partition("=")
-    if val.startswith("def:") and "{" in val:
+    if val.startswith("def:") and ("{" in val or "time.Duration(" in val):
         # a composite default is read back through its first element: the sentinel inside
         mm = re.search(r'(2\d\d|"d\d+")', val)
         if mm:
